@@ -262,6 +262,11 @@ def _explore(items):
         while stack:
             p = stack.pop()
             ex, lt, fl, state = execute(case, p)
+            if ex.errors:
+                # harness trouble (a thread that did not park or end in time on an overloaded machine): the schedule is
+                # deterministic, execute it once more before saying anything
+                st.counters['executions_repeated_after_harness_trouble'] += 1
+                ex, lt, fl, state = execute(case, p)
             st.executions += 1
             st.transitions += len(ex.points)
             st.counters['scheduling_points_total'] += len(ex.points)
